@@ -371,7 +371,7 @@ def run_check(prop, tier, seed, runs=None, workers=None, wall_cap=None, quiet=Fa
     stuck = [p for p in getattr(mod, "PROBES", []) if probes.get(p, 0) == 0]
     if stuck:
         log("note: reach probes at zero: %s" % ", ".join(stuck))
-        if tier == "thorough" and not capped and exit_code == 0 and not getattr(mod, "PROBES_OPTIONAL", False):
+        if tier == "thorough" and not capped and exit_code == 0 and runs >= cfg["runs"] and not getattr(mod, "PROBES_OPTIONAL", False):
             print("HARNESS-ERROR: reach probe(s) stuck at zero in a full thorough run: %s" % ", ".join(stuck))
             exit_code = 2
 
